@@ -27,6 +27,8 @@ try:
         for l in r.stderr.splitlines():
             if l.startswith("  -> "):
                 print("      " + l[:400])
+        if verdict == "MISSED":
+            print("      rc=%d stderr tail: %s" % (r.returncode, " | ".join(r.stderr.splitlines()[-6:])[:800]))
 finally:
     subprocess.run(["git", "-C", "/repo", "worktree", "remove", "--force", str(scratch)])
     # the mutant runs rewrote lean/AsmjitVerif/Gen from the scratch tree: regenerate from /repo
